@@ -25,7 +25,11 @@
     3. Frame shapes: a remote / extended / wrong-length frame with a known ID takes the ordinary
        locked path of the receiver and ends it with the unmarshal error ([rejected_known_frame_trace],
        [rejected_known_frame_stops]); cyclic transmission enabled before the transmitter started
-       (no wake-up token) is in force once the loop is parked ([enabled_parked_is_armed]). *)
+       (no wake-up token) is in force once the loop is parked ([enabled_parked_is_armed]).
+    4. Ticker eligibility: the cyclic bit never changes and a transmitter whose message is not
+       (send type cyclic AND cycle time > 0) never has a ticker, never a buffered tick, never takes
+       a tick: all its frames answer event requests ([ticker_guard], [not_eligible_frames_are_requests],
+       [armed_implies_eligible]) - however often cyclic transmission is "enabled" on it. *)
 From Coq Require Import Arith Bool List Lia ZArith.
 From CanVerif Require Import Runner.Lts Runner.RunModel Runner.LockDiscipline Runner.Protocol Runner.RunLts.
 Import ListNotations.
@@ -405,4 +409,76 @@ Theorem enabled_parked_is_armed cfg s t x :
   t_flag x = true -> t_cyclic x = true -> t_armed x = true.
 Proof.
   intros R Ht Hp Hw Hm Hf Hc. rewrite (I5_parked_ticker_matches_flag _ _ _ _ R Ht Hp Hw Hm), Hf, Hc. reflexivity.
+Qed.
+
+(* ---------------------------------------------------------------- 4. ticker eligibility *)
+
+Definition noticker (x : tx) : Prop :=
+  t_cyclic x = false -> t_armed x = false /\ t_tick x = false /\ t_tk x = 0.
+Definition keeps (x x' : tx) : Prop := t_cyclic x' = t_cyclic x /\ (noticker x -> noticker x').
+
+Lemma keeps_refl x : keeps x x.
+Proof. split; auto. Qed.
+
+Ltac fin_keeps x :=
+  eexists; split; [reflexivity|]; unfold keeps, noticker, apply_ticker; destruct x; cbn in *;
+  repeat match goal with |- context [if ?b then _ else _] => destruct b eqn:?; cbn in * end;
+  split; [reflexivity|]; intros N C; try (destruct (N C) as (? & ? & ?)); subst; cbn in *; try congruence; auto.
+
+Lemma step_keeps s e s' t x :
+  step_fn s e = Some s' -> th s t = TTx x -> exists x', th s' t = TTx x' /\ keeps x x'.
+Proof.
+  intros H Ht.
+  destruct e; cbn [step_fn] in H;
+    unfold on_thread, lock_thread, unlock_thread, access_thread, hookcall_thread, hookret_thread, tx_local, rx_local in H;
+    break_step; cbn [th set_th set_owner]; unfold upd;
+    repeat match goal with
+    | |- context [Nat.eqb ?a ?b] => destruct (Nat.eqb_spec a b); subst
+    end;
+    repeat match goal with
+    | H1 : th s ?u = _, H2 : th s ?u = _ |- _ => rewrite H1 in H2; inv H2
+    end;
+    try congruence;
+    try (exists x; split; [assumption|apply keeps_refl]);
+    try (fin_keeps x);
+    try (destruct ok; fin_keeps x).
+  eexists; split; [reflexivity|]. unfold keeps, noticker, apply_ticker. destruct x; cbn in *.
+  destruct t_last, t_cyclic, t_armed; cbn; (split; [reflexivity|]); intros N C; try congruence;
+    destruct (N C) as (? & ? & ?); subst; auto; congruence.
+Qed.
+
+Theorem ticker_guard cfg s :
+  reachable cfg s -> forall t c, role_cyclic (cfg t) = Some c ->
+  exists x, th s t = TTx x /\ t_cyclic x = c /\
+            (c = false -> t_armed x = false /\ t_tick x = false /\ t_tk x = 0).
+Proof.
+  induction 1 as [|s e s' R IH Hs]; intros t c Hc.
+  - cbn. destruct (cfg t); cbn in Hc; inv Hc; eexists; (split; [reflexivity|]); cbn; auto.
+  - destruct (IH t c Hc) as (x & Ht & Hcy & Hn).
+    destruct (step_keeps _ _ _ _ _ Hs Ht) as (x' & Ht' & Hk1 & Hk2).
+    exists x'. split; [exact Ht'|]. split; [congruence|]. intros ->. apply Hk2; [|congruence].
+    intros _. apply Hn. reflexivity.
+Qed.
+
+(** a message that is not (cyclic AND cycle time > 0) transmits only on request, whatever is toggled *)
+Theorem not_eligible_frames_are_requests cfg s t x :
+  reachable cfg s -> role_cyclic (cfg t) = Some false -> th s t = TTx x ->
+  t_armed x = false /\ t_tk x = 0 /\ t_txd x <= t_acc x.
+Proof.
+  intros R Hc Ht. destruct (ticker_guard _ _ R t false Hc) as (y & Hy & _ & Hn).
+  rewrite Ht in Hy. inv Hy. destruct (Hn eq_refl) as (A & B & C).
+  pose proof (no_frame_without_trigger _ _ _ _ R Ht). repeat split; auto. lia.
+Qed.
+
+Theorem armed_implies_eligible st cyc on cfg s t x :
+  reachable cfg s -> cfg t = role_of_descriptor st cyc on -> th s t = TTx x -> t_armed x = true ->
+  st = send_type_cyclic /\ (0 < cyc)%Z.
+Proof.
+  intros R Hc Ht Ha.
+  assert (Hr : role_cyclic (cfg t) = Some (ticker_eligible st cyc)) by (rewrite Hc; unfold role_of_descriptor; destruct on; reflexivity).
+  destruct (ticker_guard _ _ R t _ Hr) as (y & Hy & Hcy & Hn). rewrite Ht in Hy. inv Hy.
+  destruct (ticker_eligible st cyc) eqn:E.
+  - unfold ticker_eligible in E. apply andb_prop in E. destruct E as [E1 E2].
+    apply Nat.eqb_eq in E1. apply Z.ltb_lt in E2. auto.
+  - destruct (Hn eq_refl) as (A & _). congruence.
 Qed.
